@@ -5,10 +5,11 @@ void harness(void) {
   int sev = (int)in_range(0, 8);   /* Severity enum: none,error,warning,style,performance,portability,information,debug,internal */
   int id = (int)in_range(0, 1);    /* 1 == a critical error id */
   uint8_t emptyText = in_range(0, 1), libRep = in_range(0, 1), safety = in_range(0, 1), emitDup = in_range(0, 1), dup = in_range(0, 1),
-          useGlobal = in_range(0, 1), sGlobal = in_range(0, 1), sLocal = in_range(0, 1), sExplicit = in_range(0, 1), fGlobal = in_range(0, 1), hasAI = in_range(0, 1);
+          useGlobal = in_range(0, 1), sGlobal = in_range(0, 1), sLocal = in_range(0, 1), sExplicit = in_range(0, 1), fGlobal = in_range(0, 1), fLocal = in_range(0, 1), hasAI = in_range(0, 1);
   /* a suppression that matches without the global list also matches with it */
   __CPROVER_assume(!sLocal || sGlobal);
-  unsigned r = k_report(sev, id, emptyText, libRep, safety, emitDup, dup, useGlobal, sGlobal, sLocal, sExplicit, fGlobal, hasAI);
+  __CPROVER_assume(!fLocal || fGlobal);   /* same for the --exitcode-suppressions list: fGlobal = some entry matches, fLocal = a file-local entry matches */
+  unsigned r = k_report(sev, id, emptyText, libRep, safety, emitDup, dup, useGlobal, sGlobal, sLocal, sExplicit, fGlobal, fLocal, hasAI);
   H_OUT("r", r);
   H_ASSERT(!__exc_pending, "no exception");
   unsigned exitc = r & 0xf, fwd = (r >> 4) & 0xf, fwdInternal = (r >> 8) & 0xf, ai = (r >> 12) & 0xf;
